@@ -231,19 +231,31 @@ class FileFaults(object):
                             self._fire(f)
                             raise OSError(self.ERRNOS[f["errno"]], os.strerror(self.ERRNOS[f["errno"]]) + " (injected)", filename)
         ds = self._orig_ds(filename, mode, *args, **kwargs)
-        self._created.append(ds)
+        try:
+            import weakref
+            self._created.append(weakref.ref(ds))
+        except TypeError:
+            pass
         return ds
 
     def close_datasets(self):
-        """verif never closes its NetCDF inputs; HDF5 would otherwise keep serving a stale handle
-        for a path whose bytes the simulator has since replaced."""
-        for ds in self._created:
-            try:
-                if ds.isopen():
-                    ds.close()
-            except Exception:
-                pass
-        self._created = []
+        """verif never closes its NetCDF inputs; they are closed when the objects are collected.  Force a
+        collection after every command (HDF5 would otherwise keep serving a stale handle for a path whose
+        bytes the simulator has since replaced) but never close a handle the system under test still
+        refers to.  Returns the number of such handles (probe)."""
+        import gc
+        refs, self._created = self._created, []
+        gc.collect()
+        still = 0
+        for r in refs:
+            ds = r()
+            if ds is not None:
+                try:
+                    if ds.isopen():
+                        still += 1     # something in the system under test still refers to it: leave it alone
+                except Exception:
+                    pass
+        return still
 
 
 class _FailingReader(object):
